@@ -240,8 +240,12 @@ def run(rep, tier, seed):
     hpath = os.path.join(tlc.OUT, "traces", f"c07_headers_{tier}.ndjson")
     with open(hpath, "w") as fh:
         for p, (resp, oc) in zip(progs, outs):
-            if oc != "ok" or not resp or resp.get("compile", {}).get("r") != "ok" or resp.get("load", {}).get("r") != "ok":
-                raise ToolError(f"program {p} does not compile/load on this tree: {resp and (resp.get('compile'), resp.get('load'))}")
+            pd = [x if len(x) <= 80 else x[:60] + f"...<{len(x)} chars>" for x in p]
+            if oc != "ok" or not resp or resp.get("compile", {}).get("r") != "ok":
+                # whether a program compiles is C06's subject; the fault sweep needs at least half of its base files
+                rep.cov.setdefault("base_programs_not_compiled(informational)", []).append(pd); continue
+            if resp.get("load", {}).get("r") != "ok":
+                rep.fail(f"C07/roundtrip/emitted-file-{resp.get('load', {}).get('r')}", f"{pd}: the file the compiler emitted ({len(resp.get('hex', '')) // 2} bytes) does not load: {resp.get('load')}", {"stmts": p}); continue
             ld = resp["load"]; hx = resp["hex"]; total = len(hx) // 2
             if not (ld["reenc"].get("r") == "ok" and ld["reenc"].get("eq")):
                 rep.fail("C07/roundtrip/reencode", f"{p}: decode + re-encode does not reproduce the emitted bytes ({ld['reenc']})", {"stmts": p, "hex": hx})
@@ -254,6 +258,8 @@ def run(rep, tier, seed):
             hn["nconst"] = ld["nconst"]; hn["ninstr"] = len([s for s in ld["instrs"]])
             fh.write(json.dumps({"h": hn, "total": total}) + "\n")
             files.append((p, hx, h, total))
+    if len(files) * 2 < len(progs):
+        raise ToolError(f"only {len(files)} of {len(progs)} base programs of the fault sweep compile and load on this tree")
     t = tlc.run("MC_C07", "MC_C07.cfg", workers=8, env={"HEADERS": hpath}, timeout=1800)
     if t.violations or not t.ok:
         # informational: the property does not fix the file layout; a layout that evolves is reported in the evidence, and
